@@ -57,7 +57,16 @@ pub fn check_total(ctx: &Ctx, s: &str) -> Check {
     if r.is_ok() && s.len() > 3 {
         ctx.nontrivial(h64(&("src", s)));
     }
-    catch(|| Position::from_str(s).is_ok()).map_err(|p| Failure::new(format!("c16:position-panic:{}", panic_site(&p)), format!("Position::from_str({s:?}) panicked: {p}"), rep.clone()))?;
+    let p1 = catch(|| format!("{:?}", Position::from_str(s))).map_err(|p| Failure::new(format!("c16:position-panic:{}", panic_site(&p)), format!("Position::from_str({s:?}) panicked: {p}"), rep.clone()))?;
+    // a second parse of the same string gives the same answer (value or error)
+    let p2 = catch(|| format!("{:?}", Position::from_str(s))).map_err(|p| Failure::new(format!("c16:position-panic:{}", panic_site(&p)), format!("Position::from_str({s:?}) panicked the second time: {p}"), rep.clone()))?;
+    if p1 != p2 && !p1.contains("NaN") {
+        return Err(Failure::new("c16:second-parse-differs", format!("Position::from_str({s:?}): first {p1}, then {p2}"), rep));
+    }
+    let r2 = catch(|| Source::from_str(s).map(|x| x.serial())).map_err(|p| Failure::new(format!("c16:source-panic:{}", panic_site(&p)), format!("Source::from_str({s:?}) panicked the second time: {p}"), rep.clone()))?;
+    if r2 != r {
+        return Err(Failure::new("c16:second-parse-differs", format!("Source::from_str({s:?}): first {r:?}, then {r2:?}"), rep));
+    }
     Ok(())
 }
 
@@ -164,9 +173,15 @@ pub fn check_spec(ctx: &Ctx, ap: &Airports, s: &Spec) -> Check {
             return Err(fail("serial-differs-between-forms", format!("{text:?} -> {serial}, {t} -> {s2}")));
         }
     }
-    // the same string again gives the same serial (no per-instance randomness)
-    if Source::from_str(&text).map(|x| x.serial()).ok() != Some(serial) {
+    // the same string again gives the same serial (no per-instance randomness) and the very same value: parsing is a
+    // function of the string, whatever was parsed before in this process
+    let again = Source::from_str(&text);
+    if again.as_ref().map(|x| x.serial()).ok() != Some(serial) {
         return Err(fail("serial-not-a-function-of-the-endpoint", text));
+    }
+    let (a, b) = (format!("{:?}", again), format!("{:?}", Ok::<&Source, String>(&src)));
+    if a != b {
+        return Err(fail("second-parse-differs", format!("{text:?}: first {b}, then {a}")));
     }
     Ok(())
 }
